@@ -340,6 +340,22 @@ theorem exec_seek_is_streamed_state (key : Key) (nonce : UInt64) (before calls :
 
 example : (allInput [⟨List.replicate 20 0, true⟩, ⟨List.replicate 12 0, false⟩]).length = 16 * (1 + 1) := by decide
 
+/-- **`pmodel aes hw`: the instruction-level L2 parts are the Spec's.**  For every op sequence (no contract needed): the
+    ciphertext that the AESENC/AESENCLAST model prints after `ni=` on a `block` line is the FIPS-197 ciphertext printed
+    as L1, and the round keys printed after `rk=` on an `expand` line are FIPS-197 KeyExpansion of the key given —
+    never `model-oob`. -/
+theorem exec_hw_l2_eq_spec (hw : Bool) (ops : List Op) :
+    ∀ o ∈ (runOps { hw := hw } ops).2, (∀ ct ni, o = .block ct (some ni) → ni = some ct) ∧
+      (∀ rk, o = .expanded (some rk) → ∃ k, rk = some (Aes.keyExpansion k).flatten) :=
+  runOps_hw_l2 ops _ (init_keyInv hw)
+
+example : ((runOps { hw := true } [.expand Gen.AesConst.selfTestKey1, .block Gen.AesConst.selfTestPtext1]).2.map fun
+      | .block ct (some ni) => (ct, ni)
+      | .expanded (some (some rk)) => ([], some (rk.take 4))
+      | _ => ([], none)) =
+    [([], some (Gen.AesConst.selfTestKey1.take 4)), (Gen.AesConst.selfTestCtext1, some Gen.AesConst.selfTestCtext1)] := by
+  decide +kernel
+
 end exec
 
 end Percival.C02
